@@ -55,9 +55,10 @@ package searcher
 //@ spec dsAfter(s *DisjunctionSliceSearcher, k int, b string) bool = all(x, string, implies(mset(s.searchers[k], x) && x > b, s.currs[k] != nil && x >= dmKey(s.currs[k])))
 //@ spec dsLbOK(s *DisjunctionSliceSearcher) bool = implies(s.lbset, forall(k, 0, len(s.searchers), implies(s.currs[k] != nil, dmKey(s.currs[k]) >= s.lb)))
 // the first matching entry: child matchingIdxs[0]'s current match, beyond the cursor and the bound
-//@ spec dsHead(s *DisjunctionSliceSearcher) bool = len(s.matching) > 0 && len(s.matchingIdxs) > 0 && 0 <= s.matchingIdxs[0] && s.matchingIdxs[0] < len(s.searchers) && s.matching[0] != nil && s.matching[0] == s.currs[s.matchingIdxs[0]] && \
-//@     s.matching[0].cowner == s.searchers[s.matchingIdxs[0]] && childIdx(s.matching[0].cowner) == s.matchingIdxs[0] && mset(s.searchers[s.matchingIdxs[0]], dmKey(s.matching[0])) && s.searchers[s.matchingIdxs[0]].last == dmKey(s.matching[0]) && \
-//@     implies(s.started, dmKey(s.matching[0]) > s.last) && implies(s.lbset, dmKey(s.matching[0]) >= s.lb)
+// (stated in three steps, each proved and then used for the next)
+//@ spec dsHead0(s *DisjunctionSliceSearcher) bool = len(s.matching) > 0 && len(s.matchingIdxs) > 0 && 0 <= s.matchingIdxs[0] && s.matchingIdxs[0] < len(s.searchers) && s.matching[0] != nil && s.matching[0] == s.currs[s.matchingIdxs[0]]
+//@ spec dsHead1(s *DisjunctionSliceSearcher) bool = s.matching[0].cowner == s.searchers[s.matchingIdxs[0]] && childIdx(s.matching[0].cowner) == s.matchingIdxs[0] && mset(s.searchers[s.matchingIdxs[0]], dmKey(s.matching[0])) && s.searchers[s.matchingIdxs[0]].last == dmKey(s.matching[0])
+//@ spec dsHead2(s *DisjunctionSliceSearcher) bool = implies(s.started, dmKey(s.currs[s.matchingIdxs[0]]) > s.last) && implies(s.lbset, dmKey(s.currs[s.matchingIdxs[0]]) >= s.lb)
 //@ spec dsInv(s *DisjunctionSliceSearcher) bool = dsShape(s) && implies(!s.initialized, dsFresh(s) && !s.started) && \
 //@     implies(s.initialized, forall(k, 0, len(s.searchers), dsSlot(s, k)) && dsAhead(s) && dsMatchOK(s) && implies(s.min <= 1 && !s.done, dsR(s)))
 
@@ -102,7 +103,9 @@ package searcher
 //@   modifies s.lbset, s.lb, s.mpos, fields(DisjunctionSliceSearcher), s.currs[*], s.matching[*], s.matchingIdxs[*], mem(int), fields(search.DocumentMatch), search.DocumentMatch.cowner, search.DocumentMatchPool.avail, mem(*search.DocumentMatch), search.Searcher.started, search.Searcher.last, search.Searcher.done
 //@   at call searcher.Next#0 after: ghost result0.cowner = recv
 // (stepping stone: what the first matching entry is, before it is handed to the scorer)
-//@   at call s.scorer.Score#0: assert dsHead(s)
+//@   at call s.scorer.Score#0: assert dsHead0(s)
+//@   at call s.scorer.Score#0: assert dsHead1(s)
+//@   at call s.scorer.Score#0: assert dsHead2(s)
 //@   at return: ghost s.started = s.started || (result1 == nil && result0 != nil)
 //@   at return: ghost s.last = ite(result1 == nil && result0 != nil, dmKey(result0), s.last)
 //@   at return: ghost s.done = s.done || (result1 == nil && result0 == nil)
